@@ -13,12 +13,13 @@ import (
 )
 
 var tagRows = map[string]string{
-	"total":      "no tag text makes the parser, the argument lookups or the required test panic",
-	"value":      "the value part is the text before the first top-level comma (commas inside brackets do not count), unchanged",
-	"arguments":  "every following segment name=v1 v2 yields the argument name with the space-separated items as values; bracketed groups are never split; a segment without '=' yields one empty value; an empty name is ignored",
-	"lookup":     "an argument is found (Find, Has) under its name with either case of the first letter, and only under those",
-	"required":   "the point is optional exactly when the tag carries required=false",
-	"has-values": "Has(name, wanted...) holds exactly when one of the wanted texts equals one of the argument's values, byte for byte",
+	"total":         "no tag text makes the parser, the argument lookups or the required test panic",
+	"value":         "the value part is the text before the first top-level comma (commas inside brackets do not count), unchanged",
+	"arguments":     "every following segment name=v1 v2 yields the argument name with the space-separated items as values; bracketed groups are never split; a segment without '=' yields one empty value; an empty name is ignored",
+	"lookup":        "an argument is found (Find, Has) under its name with either case of the first letter, and only under those",
+	"required":      "the point is optional exactly when the tag carries required=false",
+	"own-arguments": "every property owns its arguments: changing one property's arguments by program does not change another property built from the same tag text",
+	"has-values":    "Has(name, wanted...) holds exactly when one of the wanted texts equals one of the argument's values, byte for byte",
 }
 
 // refSplitTop splits s at sep where the bracket depth is zero (reference for balanced texts only).
@@ -279,7 +280,53 @@ func tagTable(c *core.Ctx) (rs rows, runs int, undecided string) {
 			rs.fail("required", fmt.Sprintf("%s: IsRequired => %s, want %v", w, showOutcome(ro), wantReq))
 		}
 	}
+	// two properties built from the same tag text own separate argument maps
+	{
+		ip := absint.New(mk())
+		ip.IsLog, ip.InScope = core.IsLogCall, c.InScope
+		setArg := c.DeclaredMethod(prop, "SetArg")
+		o1 := ip.Run(newProp, []absint.Value{absint.NewTok("field1", "field"), absint.Str("Component"), absint.Str("wire"), absint.Str("name,qualifier=x")}, nil)
+		o2 := ip.Run(newProp, []absint.Value{absint.NewTok("field2", "field"), absint.Str("Component"), absint.Str("wire"), absint.Str("name,qualifier=x")}, nil)
+		runs += 2
+		rs.hit("own-arguments")
+		p1, ok1 := firstTok(o1)
+		p2, ok2 := firstTok(o2)
+		switch {
+		case o1.Undecided != nil || o2.Undecided != nil:
+			msg := ""
+			for _, o := range []absint.Outcome{o1, o2} {
+				if o.Undecided != nil {
+					msg = o.Undecided.Msg
+				}
+			}
+			return rs, runs, "NewProperty called twice with the same text: " + msg
+		case !ok1 || !ok2 || setArg == nil:
+			rs.fail("own-arguments", "NewProperty did not return property objects / SetArg not found")
+		default:
+			o3 := ip.Run(setArg, []absint.Value{p1, absint.Str("required"), &absint.List{Elems: []absint.Value{absint.Str("false")}}}, nil)
+			runs++
+			if o3.Undecided != nil {
+				return rs, runs, "SetArg: " + o3.Undecided.Msg
+			}
+			o4 := ip.Run(isReq, []absint.Value{p2}, nil)
+			runs++
+			if o4.Undecided != nil {
+				return rs, runs, "IsRequired: " + o4.Undecided.Msg
+			}
+			if p1.Fields["args"] == p2.Fields["args"] || o4.Panic != nil || len(o4.Ret) != 1 || o4.Ret[0] != absint.Value(absint.Bool(true)) {
+				rs.fail("own-arguments", "two properties with the tag text \"name,qualifier=x\": after SetArg(required,false) on the first, the second reports IsRequired => "+showOutcome(o4))
+			}
+		}
+	}
 	return
+}
+
+func firstTok(o absint.Outcome) (*absint.Tok, bool) {
+	if o.Panic != nil || len(o.Ret) < 1 {
+		return nil, false
+	}
+	t, ok := o.Ret[0].(*absint.Tok)
+	return t, ok
 }
 
 var shorthandRows = map[string]string{
@@ -307,7 +354,7 @@ func shorthandHandlers(c *core.Ctx) []*ssa.Function {
 func shorthandTable(c *core.Ctx, fn *ssa.Function) (rs rows, runs int, undecided string) {
 	rs = rows{}
 	metaT, fieldT := c.Named("component_definition", "Meta"), c.Named("component_definition", "Field")
-	texts := []string{"k", "a.b", "a.b,required=false", "k:[1,2,3]", "k:[1,2],validate=max=3", "k:{a,b},x=(1,2) y", "k:(x,y)", "", ",required=false", "k,", "[", "k,[", "]", ",", "k:[1", "日本,語=本"}
+	texts := []string{"${env}.hosts.${zone}", "${a}", "${env}.port:${fallback.port}", "k", "a.b", "a.b,required=false", "k:[1,2,3]", "k:[1,2],validate=max=3", "k:{a,b},x=(1,2) y", "k:(x,y)", "", ",required=false", "k,", "[", "k,[", "]", ",", "k:[1", "日本,語=本"}
 	balanced := func(s string) bool {
 		d := 0
 		for i := 0; i < len(s); i++ {
